@@ -188,7 +188,7 @@ type Expect struct {
 }
 
 // HTTPKinds lists the request builders.
-var HTTPKinds = []string{"loki", "prom", "zipkin", "profile", "otlp", "mixed"}
+var HTTPKinds = []string{"loki", "prom", "zipkin", "profile", "otlp", "mixed", "zipkin-nd", "cf"}
 
 // BuildHTTP builds push request number req of the given protocol with n entries spread
 // over streams series/spans. big asks for the large variant of the protocol: prom: one
@@ -309,7 +309,55 @@ func BuildHTTP(proto_ string, req, streams, n int, big bool) (*http.Request, []E
 		r := httptest.NewRequest("POST", "/tempo/spans", strings.NewReader(sb.String()))
 		r.Header.Set("Content-Type", "application/json")
 		return r, exp
+	case "zipkin-nd":
+		// Zipkin NDJSON framing (the route selects the parser by a Content-Type starting with
+		// "ndjson"): one span per line, read with a bufio.Scanner whose buffer is 64 KiB. big: a
+		// body of several hundred spans, well above that buffer, so it is compacted and refilled
+		// many times while earlier spans are still waiting to be copied into the columns
+		if big {
+			n = 400 + 97*n
+		}
+		var sb strings.Builder
+		for i := 0; i < n; i++ {
+			tr, sp := ids(req, i)
+			name := fmt.Sprintf("N%d-%d", req, i)
+			us := (BaseNs + int64(req)*1e6 + int64(i)*1000) / 1000
+			span := fmt.Sprintf(`{"traceId":"%s","id":"%s","name":"%s","timestamp":%d,"duration":%d,"localEndpoint":{"serviceName":"ns%d"},"tags":{"mk":"nv%d-%d","filler":"%s"}}`,
+				hex.EncodeToString(tr), hex.EncodeToString(sp), name, us, 10+i%50, req, req, i, pad(i, 160))
+			sb.WriteString(span)
+			sb.WriteString("\n")
+			h := hex.EncodeToString(sp)
+			exp = append(exp, Expect{Table: "tempo_traces", Marker: h + "/" + name, Cols: map[string]any{
+				"trace_id": string(tr), "span_id": string(sp), "parent_id": "", "name": name, "timestamp_ns": us * 1000,
+				"duration_ns": int64(10+i%50) * 1000, "service_name": fmt.Sprintf("ns%d", req), "payload_type": int8(1), "payload": span}})
+			exp = append(exp, Expect{Table: "tempo_traces_attrs_gin", Marker: fmt.Sprintf("%s/mk=nv%d-%d", h, req, i), Cols: map[string]any{
+				"key": "mk", "val": fmt.Sprintf("nv%d-%d", req, i), "trace_id": string(tr), "span_id": string(sp), "timestamp_ns": us * 1000}})
+		}
+		r := httptest.NewRequest("POST", "/tempo/spans", strings.NewReader(sb.String()))
+		r.Header.Set("Content-Type", "ndjson")
+		return r, exp
+	case "cf":
+		// Cloudflare/Datadog NDJSON (/cf/v1/insert): one JSON event per line, stored as a log
+		// line; big: thousands of lines, far beyond the scanner's 64 KiB buffer
+		if big {
+			n = 1500 + 300*n
+		}
+		var sb strings.Builder
+		for i := 0; i < n; i++ {
+			ms := BaseNs/1e6 + int64(req)*5000 + int64(i)
+			line := fmt.Sprintf(`{"EventTimestampMs":%d,"ScriptName":"c%d","m":"C%d-%d"}`, ms, req, req, i)
+			sb.WriteString(line)
+			sb.WriteString("\n")
+			exp = append(exp, Expect{Table: "samples_v3", Marker: MarkerOfLine(line),
+				Cols: map[string]any{"string": line, "timestamp_ns": ms * 1e6, "value": float64(0), "type": uint8(1)}})
+		}
+		r := httptest.NewRequest("POST", fmt.Sprintf("/cf/v1/insert?ddsource=src%d", req), strings.NewReader(sb.String()))
+		r.Header.Set("Content-Type", "application/json")
+		return r, exp
 	case "mixed":
+		if big {
+			n = 2500 + 500*n // > 64 KiB of line protocol
+		}
 		// one Influx write (one parser chunk) mixing log lines (a `message` field) and metric
 		// lines (a numeric field): log batch first when streams is odd, metric batch first
 		// otherwise; with n >= 3 a third batch of the first kind follows
